@@ -109,32 +109,67 @@ func runC16(c *Ctx) {
 	} else {
 		c.Lost("R16.5", fmt.Sprintf("the identifier validity function func(string) bool (found %d)", len(fds)))
 	}
-	for _, call := range mkdirs {
-		fn := call.Parent()
-		c.Analysed(shortFn(fn))
-		parts := joinParts(fn, call.Call.Args[0])
-		okPath := len(parts) == 2 && strings.HasSuffix(parts[0], ".Path") && strings.HasSuffix(parts[1], ".Spec.Name")
-		c.Check("R16.3", "os.Mkdir path is Join(<out>, <name>) in "+shortFn(fn), call.Pos(), okPath, fmt.Sprintf("directory path is built from %v", parts))
-		// validity test dominates
-		guarded := false
-		var guardArg string
-		for _, cd := range controlConds(call.Block()) {
-			if vc, ok := cd.v.(*ssa.Call); ok && calleeFunc(vc) == idValid && idValid != nil && cd.pol {
-				guarded = true
-				guardArg = accessPath(vc.Call.Args[0])
+	// a creation site: where the path is built and the call is guarded. When the primitive sits in a small helper whose
+	// path is its parameter, the helper's call sites are the creation sites.
+	type site struct {
+		pos   token.Pos
+		path  ssa.Value
+		block *ssa.BasicBlock
+		fn    *ssa.Function
+	}
+	var expand func(fn *ssa.Function, path ssa.Value, block *ssa.BasicBlock, pos token.Pos, depth int) []site
+	expand = func(fn *ssa.Function, path ssa.Value, block *ssa.BasicBlock, pos token.Pos, depth int) []site {
+		if par, ok := path.(*ssa.Parameter); ok && depth < 3 {
+			idx := -1
+			for i, q := range fn.Params {
+				if q == par {
+					idx = i
+				}
+			}
+			var out []site
+			for _, g := range ri.module() {
+				allCalls(g, func(cs ssa.CallInstruction) {
+					if cs.Common().StaticCallee() == fn && idx >= 0 && idx < len(cs.Common().Args) {
+						out = append(out, expand(g, cs.Common().Args[idx], cs.Block(), cs.Pos(), depth+1)...)
+					}
+				})
+			}
+			if len(out) > 0 {
+				return out
 			}
 		}
-		c.Check("R16.2", "os.Mkdir is dominated by a successful identifier check in "+shortFn(fn), call.Pos(), guarded, "a directory can be created before (or without) the package name being validated")
-		if guarded && len(parts) == 2 {
-			c.Check("R16.2", "the validated name is the directory name in "+shortFn(fn), call.Pos(), guardArg != "" && guardArg == parts[1], fmt.Sprintf("validated %q, created %q", guardArg, parts[1]))
+		return []site{{pos, path, block, fn}}
+	}
+	for _, call := range mkdirs {
+		for _, st := range expand(call.Parent(), call.Call.Args[0], call.Block(), call.Pos(), 0) {
+			fn := st.fn
+			c.Analysed(shortFn(fn))
+			parts := joinParts(fn, st.path)
+			okPath := len(parts) == 2 && strings.HasSuffix(parts[0], ".Path") && strings.HasSuffix(parts[1], ".Spec.Name")
+			c.Check("R16.3", "os.Mkdir path is Join(<out>, <name>) in "+shortFn(fn), st.pos, okPath, fmt.Sprintf("directory path is built from %v", parts))
+			// validity test dominates
+			guarded := false
+			var guardArg string
+			for _, cd := range controlConds(st.block) {
+				if vc, ok := cd.v.(*ssa.Call); ok && calleeFunc(vc) == idValid && idValid != nil && cd.pol {
+					guarded = true
+					guardArg = accessPath(vc.Call.Args[0])
+				}
+			}
+			c.Check("R16.2", "os.Mkdir is dominated by a successful identifier check in "+shortFn(fn), st.pos, guarded, "a directory can be created before (or without) the package name being validated")
+			if guarded && len(parts) == 2 {
+				c.Check("R16.2", "the validated name is the directory name in "+shortFn(fn), st.pos, guardArg != "" && guardArg == parts[1], fmt.Sprintf("validated %q, created %q", guardArg, parts[1]))
+			}
 		}
 	}
 	for _, call := range opens {
-		fn := call.Parent()
-		c.Analysed(shortFn(fn))
-		parts := joinParts(fn, call.Call.Args[0])
-		okPath := len(parts) == 3 && strings.HasSuffix(parts[0], ".Path") && strings.HasSuffix(parts[1], ".Spec.Name") && strings.HasPrefix(parts[2], "param:")
-		c.Check("R16.3", "os.OpenFile path is Join(<out>, <name>, <file>) in "+shortFn(fn), call.Pos(), okPath, fmt.Sprintf("file path is built from %v", parts))
+		for _, st := range expand(call.Parent(), call.Call.Args[0], call.Block(), call.Pos(), 0) {
+			fn := st.fn
+			c.Analysed(shortFn(fn))
+			parts := joinParts(fn, st.path)
+			okPath := len(parts) == 3 && strings.HasSuffix(parts[0], ".Path") && strings.HasSuffix(parts[1], ".Spec.Name") && strings.HasPrefix(parts[2], "param:")
+			c.Check("R16.3", "os.OpenFile path is Join(<out>, <name>, <file>) in "+shortFn(fn), st.pos, okPath, fmt.Sprintf("file path is built from %v", parts))
+		}
 	}
 	// no store to Spec.Name inside the generator package (the validated name stays the created name)
 	nameStores := 0
